@@ -495,6 +495,37 @@ func c20Run(e *core.Env) {
 			}
 		}
 	}
+	// FAR-ZERO family: a zero more than 100000 exponent steps away from a non-zero operand, in both positions
+	// (commutativity, Sub = Add of the negation, negation mirror where both computations deliver a result)
+	{
+		var nz, zs []Operand
+		for _, j := range []DecJ{{Coef: "1", Exp: -60000}, {Coef: "3", Exp: -99999, Neg: true}, {Coef: "25", Exp: -100000}, {Coef: "7", Exp: 99999}} {
+			nz = append(nz, j.Op())
+		}
+		for _, ex := range []int32{60000, 100000, 1, 2, -100000, -50001} {
+			zs = append(zs, Fin(0, ex, false), Fin(0, ex, true))
+		}
+		n := int64(0)
+		for _, a := range nz {
+			for _, z := range zs {
+				n++
+				if !e.Mine(n) {
+					continue
+				}
+				for _, m := range []apd.Rounder{apd.RoundHalfEven, apd.RoundFloor} {
+					cc := MkCtx(5, -100000, 100000, m, 0)
+					for _, op := range []string{"Add", "Sub"} {
+						for _, pr := range [][2]Operand{{a, z}, {z, a}} {
+							y := pr[1]
+							cls, msg := c20Sym(op, pr[0], &y, 0, cc)
+							e.TransOnly(2)
+							report("sym", op, pr[0], &y, 0, cc, cls+"-far-zero", msg)
+						}
+					}
+				}
+			}
+		}
+	}
 	// Round is monotone: adjacent pairs of the value-sorted alphabet (worker 0 .. n by context)
 	sorted := append([]Operand{}, sp.Us...)
 	sort.SliceStable(sorted, func(i, j int) bool { return ref.Cmp(sorted[i].V, sorted[j].V) < 0 })
